@@ -63,6 +63,20 @@ Fixpoint tri_round_rows (rows : list (list T)) (l1 l2 l3 : T) : list (list T) :=
 Definition tri_round (d : nat) (v : list T) (l1 l2 l3 : T) : list T :=
   concat (tri_round_rows (split_rows (S d) v) l1 l2 l3).
 
+(* ---- de Casteljau evaluation and specialize_triangle (blossom values) ----
+   d = degree of v.  spec_val: i rounds with a, then j with b, then k with c (the value the code
+   stores under the key 0^i 1^j 2^k; rounds commute). *)
+Definition W3 := (T * T * T)%type.
+Definition tri_round_w (d : nat) (w : W3) (v : list T) : list T :=
+  let '(w1, w2, w3) := w in tri_round d v w1 w2 w3.
+Fixpoint tri_rounds (n d : nat) (w : W3) (v : list T) : list T :=
+  match n with 0%nat => v | S n' => tri_rounds n' (d - 1) w (tri_round_w d w v) end.
+Definition tri_dc_eval (d : nat) (v : list T) (w : W3) : T := hd 0 (tri_rounds d d w v).
+Definition spec_val (d : nat) (v : list T) (a b c : W3) (i j k : nat) : T :=
+  hd 0 (tri_rounds k (d - i - j) c (tri_rounds j (d - i) b (tri_rounds i d a v))).
+Definition specialize_tri (d : nat) (v : list T) (a b c : W3) : list T :=
+  concat (map (fun k => map (fun j => spec_val d v a b c (d - j - k) j k) (seq 0 (S d - k))) (seq 0 (S d))).
+
 (* ---- jacobian_s / jacobian_t: nets of the partial derivatives (degree d-1) ---- *)
 Definition jac_s_rows (d : nat) (rows : list (list T)) : list (list T) :=
   map (fun r => map (fun x => ofn K d * x) (diffs K r)) (removelast rows).
